@@ -236,9 +236,9 @@ impl AdaptiveCompressionLimits {
         // Adaptive limits based on compressed file size
         let size_based_limit = match compressed_size {
             // Very small files can have high ratios due to format overhead
-            0..=512 => self.base_limit * 10, // Up to 10000:1 for tiny files
-            513..=4096 => self.base_limit * 5, // Up to 5000:1 for small files
-            4097..=65536 => self.base_limit * 2, // Up to 2000:1 for medium files
+            0..=512 => self.base_limit.saturating_mul(10), // Up to 10000:1 for tiny files
+            513..=4096 => self.base_limit.saturating_mul(5), // Up to 5000:1 for small files
+            4097..=65536 => self.base_limit.saturating_mul(2), // Up to 2000:1 for medium files
             65537..=1048576 => self.base_limit, // Base limit for large files
             _ => self.base_limit / 2,        // Stricter limit for very large files
         };
@@ -246,13 +246,13 @@ impl AdaptiveCompressionLimits {
         // Adjust based on compression method capabilities
         let method_based_limit = match compression_method {
             // Text compression methods can achieve higher ratios legitimately
-            0x02 => size_based_limit * 2,        // Zlib - good for text
-            0x10 => size_based_limit * 3,        // BZip2 - excellent for text
-            0x12 => size_based_limit * 4,        // LZMA - best for text
+            0x02 => size_based_limit.saturating_mul(2), // Zlib - good for text
+            0x10 => size_based_limit.saturating_mul(3), // BZip2 - excellent for text
+            0x12 => size_based_limit.saturating_mul(4), // LZMA - best for text
             0x20 => size_based_limit / 2,        // Sparse - should be moderate
             0x08 => size_based_limit,            // Implode - moderate compression
             0x01 => size_based_limit / 2,        // Huffman - lower ratios expected
-            0x40 | 0x80 => size_based_limit * 2, // ADPCM - audio can compress well
+            0x40 | 0x80 => size_based_limit.saturating_mul(2), // ADPCM - audio can compress well
             _ => size_based_limit,               // Unknown methods use base calculation
         };
 
